@@ -1,5 +1,6 @@
 import CashewsVerif.Lemmas.MemStep
 import CashewsVerif.Lemmas.Sweep
+import CashewsVerif.Lemmas.TtlFacade
 /-
 C01 — the in-memory store is a TTL key-value map for every command history.
 Property theorems only; helper lemmas live in `Lemmas/`.
@@ -182,6 +183,91 @@ answers "missing" where the ideal map holds the fresh value; uninterrupted, the 
 theorem stale_split_sweep_is_visible :
     ((Mem.init 4).runEv staleSplit).2 ≠ (TtlMap.init.run (Ev.cmds staleSplit)).2 ∧
     ((Mem.init 4).runEv staleAtomic).2 = (TtlMap.init.run (Ev.cmds staleAtomic)).2 := by decide
+
+
+/-! ### TTL spellings: from what the application writes to the ticks the model works with
+
+`Cache.set / set_many / expire` hand their `expire=` / `timeout=` through `cashews.ttl.ttl_to_seconds` before the
+backend sees a number.  `Model/TtlFacade.lean`: `FOp` = a command with its TTL as *spelled* (`Ttl.Plain`: int, float,
+timedelta, duration string), `FOp.lower` = the facade's conversion (C02's model of `ttl_to_seconds`), `Ttl.Denotes` =
+what a spelling means, written without the parser (`Spec/Ttl.lean`).  The parser facts are C02's (Lemmas/Ttl.lean
+`ttlFromStr_render`, `ttlFromStr_digits`, i.e. Props/C02 `ttl_segments` / `ttl_forms_agree`). -/
+
+/-- **One command.**  However a duration of `t` ticks is spelled (`Denotes p t`), `set`, `set_many` and `expire`
+through the facade are the backend's `set` / `set_many` / `expire` with `t` ticks; a TTL that is not given stays not
+given. -/
+theorem facade_spelling_is_ticks (p : Ttl.Plain) (t : Nat) (h : Ttl.Denotes p t) (k : Key) (v : Val) (c : Cond)
+    (kvs : List (Key × Val)) :
+    (FOp.set k v (some p) c).lower = some (.set k v (some t) c) ∧
+    (FOp.setMany kvs (some p)).lower = some (.setMany kvs (some t)) ∧
+    (FOp.expire k p).lower = some (.expire k (some t)) ∧
+    (FOp.set k v none c).lower = some (.set k v none c) ∧
+    (FOp.setMany kvs none).lower = some (.setMany kvs none) :=
+  ⟨(Spells.set k v c (.given h)).lower_eq, (Spells.setMany kvs (.given h)).lower_eq, (Spells.expire k h).lower_eq,
+   (Spells.set k v c .absent).lower_eq, (Spells.setMany kvs .absent).lower_eq⟩
+
+/-- **All spellings of `d` days `h` hours `m` minutes `s` seconds denote the same `8·(86400 d + 3600 h + 60 m + s)`
+ticks**: the int, the float, `timedelta(days=d, seconds=3600 h + 60 m + s)` (its `days` field counts), the strings
+`"{d}d{h}h{m}m{s}s"`, `"{N}s"` and `"{N}"` with `N` the total number of seconds, and any other cut of the same
+duration into `<number><unit>` segments. -/
+theorem spellings_of_a_duration (d h m s : Nat) (segs : List (Nat × Ttl.U))
+    (hsegs : Ttl.total segs = 86400 * d + 3600 * h + 60 * m + s) :
+    let N := 86400 * d + 3600 * h + 60 * m + s
+    Ttl.Denotes (.int N) (8 * N) ∧ Ttl.Denotes (.float (8 * N)) (8 * N) ∧
+    Ttl.Denotes (.delta (Ttl.TDelta.ticks ⟨d, 3600 * h + 60 * m + s, 0⟩)) (8 * N) ∧
+    Ttl.Denotes (.str (Ttl.render [(d, .d), (h, .h), (m, .m), (s, .s)])) (8 * N) ∧
+    Ttl.Denotes (.str (Ttl.render [(N, .s)])) (8 * N) ∧
+    Ttl.Denotes (.str (Ttl.digits N)) (8 * N) ∧
+    Ttl.Denotes (.str (Ttl.render segs)) (8 * N) := by
+  intro N
+  have e1 : Ttl.TDelta.ticks ⟨d, 3600 * h + 60 * m + s, 0⟩ = 8 * N := by simp only [Ttl.TDelta.ticks]; omega
+  have e2 : Ttl.total [(d, .d), (h, .h), (m, .m), (s, .s)] = N := by simp only [Ttl.total, Ttl.U.secs]; omega
+  have e3 : Ttl.total [(N, .s)] = N := by simp [Ttl.total, Ttl.U.secs]
+  refine ⟨.int N, .float _, ?_, ?_, ?_, .digits N, ?_⟩
+  · have := Ttl.Denotes.delta ⟨d, 3600 * h + 60 * m + s, 0⟩
+    rw [e1] at this ⊢
+    exact this
+  · have := Ttl.Denotes.segments [(d, .d), (h, .h), (m, .m), (s, .s)]
+    rwa [e2] at this
+  · have := Ttl.Denotes.segments [(N, .s)]
+    rwa [e3] at this
+  · have := Ttl.Denotes.segments segs
+    rwa [hsegs] at this
+
+/-- **Refinement through the facade.**  A history written with spelled TTLs (`fops`), each of which denotes the
+ticks of the corresponding command of `ops` (`SpellsAll`), is never refused by the conversion, and every result it
+gets from the in-memory backend is the result the ideal TTL map gives to `ops` - `mem_refines_ttlmap` composed with
+the spelling theorem.  In particular a key written with `timedelta(days=1, seconds=90)` is held for 691920 ticks,
+neither for 720 nor for ever. -/
+theorem facade_spellings_refine (cap : Nat) (K : List Key) (hK : K.length ≤ cap)
+    (fops : List FOp) (ops : List Op) (hsp : SpellsAll fops ops) (hops : HistWithin K ops) :
+    facadeRun cap fops = some (TtlMap.init.run ops).2 := by
+  unfold facadeRun
+  rw [hsp.mapM_lower]
+  simp [mem_refines_ttlmap cap K hK ops hops]
+
+/-- the model evaluates on spelled histories: `timedelta(days=1, seconds=90)` is readable one tick before 691920
+ticks have passed and gone exactly then; `"2d"` with only-if-absent; re-timing with `" 1D1M30S "`; `set_many` with
+the int 86400 expiring exactly one day later -/
+example : facadeRun 2 [.set 0 (.tok 1) (some (.delta (Ttl.TDelta.ticks ⟨1, 90, 0⟩))) .always, .other (.getExpire 0),
+      .other (.adv 691919), .other (.get 0), .other (.adv 1), .other (.get 0),
+      .set 1 (.int 5) (some (.str "2d".toList)) .nx, .other (.adv 1382399), .expire 1 (.str " 1D1M30S ".toList),
+      .other (.getExpire 1), .setMany [(0, .int 1)] (some (.int 86400)), .other (.adv 691200), .other (.getMany [0, 1])] =
+    some [.bool true, .int 86490, .unit, .val (some (.tok 1)), .unit, .val none, .bool true, .unit, .unit, .int 86490,
+      .unit, .unit, .vals [none, some (.int 5)]] := by decide
+
+/-- a spelling the parser refuses is refused before the backend is reached -/
+example : facadeRun 2 [.set 0 (.tok 1) (some (.str "1w".toList)) .always] = none := by decide
+
+/-- the hypotheses of `facade_spellings_refine` are satisfiable by a history with a days-carrying timedelta and a
+composite string -/
+example : SpellsAll [.set 0 (.tok 1) (some (.delta (Ttl.TDelta.ticks ⟨1, 90, 0⟩))) .always, .other (.adv 691920),
+      .expire 0 (.str (Ttl.render [(1, .d), (30, .s)])), .other (.get 0)]
+    [.set 0 (.tok 1) (some 691920) .always, .adv 691920, .expire 0 (some (8 * 86430)), .get 0] ∧
+    HistWithin [0] [.set 0 (.tok 1) (some 691920) .always, .adv 691920, .expire 0 (some (8 * 86430)), .get 0] := by
+  refine ⟨.cons (.set 0 _ _ (.given (.delta ⟨1, 90, 0⟩))) (.cons (.other _) (.cons (.expire 0 (.segments [(1, .d), (30, .s)]))
+    (.cons (.other _) .nil))), ?_⟩
+  unfold HistWithin; decide
 
 /-! ### Non-vacuity: a concrete history meets the hypotheses and exercises the interesting states -/
 
